@@ -108,8 +108,10 @@ func (c *Catalog) tagsFromTagsDirective(d *directive.Directive) ([]*Tag, *jerr.J
 		}
 		seen[tn] = struct{}{}
 
+		// Only the tags declared by the TAG directive can be referenced, the
+		// tag made from the path of an earlier interaction isn't one of them.
 		t, ok := c.Tags.Get(tn)
-		if !ok {
+		if !ok || t.implicit {
 			return nil, d.KeywordError(fmt.Sprintf("%s %q", jerr.TagNotFound, tn))
 		}
 
